@@ -466,6 +466,19 @@ func lastLines(s string, n int) string {
 	return strings.Join(ls, "\n")
 }
 
+// SetupOnly runs just the sequential part of a check and prints what it found (debugging aid).
+func SetupOnly(id string) {
+	def, ok := Defs[id]
+	if !ok || def.Setup == nil {
+		fmt.Fprintln(os.Stderr, "HARNESS-ERROR: no sequential part for", id)
+		os.Exit(2)
+	}
+	os.Setenv("VERIF_OUT", os.TempDir())
+	c := harness.New(id, "quick", "mc")
+	def.Setup(c)
+	fmt.Println("violations:", c.NumViolations())
+}
+
 // Replay re-runs one recorded schedule without the explorer.
 func Replay(path string) {
 	r, err := harness.LoadReplay(path)
@@ -479,6 +492,24 @@ func Replay(path string) {
 		_ = json.Unmarshal(r.Data, &d)
 		os.Setenv("VERIF_OUT", os.TempDir())
 		Main(d.Check, d.Tier)
+		return
+	}
+	if r.Kind == "setup" || r.Kind == "note" {
+		// a finding of the sequential part of a check (grids, conformance sessions): replaying is
+		// running that part again; the signature recorded must come up again
+		def, ok := Defs[r.Property]
+		if !ok || def.Setup == nil {
+			fmt.Fprintln(os.Stderr, "HARNESS-ERROR: no sequential part for", r.Property)
+			os.Exit(2)
+		}
+		os.Setenv("VERIF_OUT", os.TempDir())
+		c := harness.New(r.Property, "quick", "mc")
+		def.Setup(c)
+		if msg, ok := c.Has(r.Sig); ok {
+			fmt.Printf("VIOLATION property=%s replay=%s\n    sig: %s\n    %s\n", r.Property, path, r.Sig, msg)
+			os.Exit(1)
+		}
+		fmt.Println("replay: property holds on this input (the sequential part of the check no longer reports", r.Sig+")")
 		return
 	}
 	var f explore.Found
